@@ -16,6 +16,17 @@ for p in props:
     except ModuleNotFoundError:
         na.append({'property_id': pid, 'reason': NA.get(pid, 'check not implemented yet (work in progress; see DESIGN.md section 0)')})
         continue
+    shared = getattr(mod, 'SHARED', [])
+    shared_txt = ''
+    if shared:
+        shared_txt = ' Also decided here, with the rule functions of the sibling property they belong to: ' + '; '.join(
+            '%s = %s rules %s' % (label, other, ', '.join(x.rstrip('.') for x in prefixes)) for other, prefixes, label in shared) + '.'
+    import engine
+    wit = engine.WITNESS_USE.get(pid)
+    thorough_txt = ' Thorough tier: the same rules in all four feature configurations that build offline (default, no-default-features, rustls, gssapi)'
+    if wit:
+        thorough_txt += ', the compile_fail witnesses %s of witness/ (each with a compiling twin)' % ', '.join(wit)
+    thorough_txt += ', and a sensitivity run of this check against every self-test mutant and seeded defect of the property applied to a scratch copy of the current tree.'
     checks.append({
         'property_id': pid,
         'quick_cmd': './check %s' % pid,
@@ -25,7 +36,7 @@ for p in props:
         'engine': 'ldap3-facts + rules',
         'level_claimed': {
             'category': 'other',
-            'text': getattr(mod, 'LEVEL_TEXT', None) or ('Static decision of the structural necessary conditions of the property on the resolved, type-checked program (all call sites / arms / paths of the anchored mechanism, every run, from /repo\'s working tree). ' + mod.EXPLANATION),
+            'text': getattr(mod, 'LEVEL_TEXT', None) or ('Static decision of the structural necessary conditions of the property on the resolved, type-checked program (all call sites / arms / paths of the anchored mechanism, every run, from /repo\'s working tree). ' + mod.EXPLANATION + shared_txt + thorough_txt),
             'design_ref': 'DESIGN.md section 6, ' + pid,
         },
         'level_note': 'Decides the listed structural clauses, not the runtime behaviour taken whole. Undecided: ' + '; '.join(getattr(mod, 'UNDECIDED', [])) + '. Trusted: rustc front end (nightly rustc_private), the fact extractor, ' + ', '.join(getattr(mod, 'TRUSTED', [])) + '.',
@@ -46,10 +57,14 @@ m = {
          'kind_free_text': 'rustc_private driver: items, typed HIR with resolved callees, pre-optimisation MIR, as JSON facts'},
         {'name': 'rules', 'path': 'rules/', 'serves_properties': [c['property_id'] for c in checks],
          'kind_free_text': 'Python rule library (stdlib only): helper inlining and canonical control forms at fact load, path-sensitive abstract interpreter (absx) with library models, path-level queries (sem), driver-arm enumeration, data origin, who-may-touch, finite-partition evaluation, ASN.1 shape extraction, PEG extraction with language-level comparison, panic cone with discharge rules'},
+        {'name': 'fixtures', 'path': 'fixtures/', 'serves_properties': ['C01', 'C04', 'C08', 'C11', 'C18'],
+         'kind_free_text': 'positive-control crate analysed by the same driver on every run: the queries behind zero-count rules (leak primitives, panic sources of every kind, recursion, who-may-touch) must match there'},
+        {'name': 'witness', 'path': 'witness/', 'serves_properties': sorted(__import__('engine').WITNESS_USE),
+         'kind_free_text': 'compile_fail,E0xxx doc-test witnesses with compiling twins (cargo +nightly test --doc, thorough tier): encapsulation facts the who-may-touch rules lean on, as the compiler enforces them'},
     ],
     'checks': checks,
     'not_applicable': na,
-    'notes': 'All checks are static: the only process run on the analysed code is cargo +nightly check (type checking, with the fact-extracting rustc wrapper); nothing of inejge/ldap3 is executed. Quick = default feature configuration, thorough = all four configurations that build offline. See DESIGN.md (sections 11 and 12 describe the checks as built and how they were evaluated against seeded defects and behaviour-preserving refactors).',
+    'notes': 'All checks are static: the only process run on the analysed code is cargo +nightly check (type checking, with the fact-extracting rustc wrapper); nothing of inejge/ldap3 is executed. Quick = default feature configuration; thorough = all four configurations that build offline, the compile_fail witnesses, and sensitivity runs against the known property-breaking variants. See DESIGN.md (sections 11 to 13 describe the checks as built and how they were evaluated against seeded defects and behaviour-preserving refactors).',
 }
 fix_file = os.path.join(VERIF, 'tools', 'fix_commits.json')
 if os.path.exists(fix_file):
